@@ -6,8 +6,10 @@
    [integral f g] = sum over all bins of f(i) * delta_wavelength;  [csbin g cs i] = what the component
    list cs adds to bin i;  [total_rad cs] = sum of the component radiances. *)
 Require Import Cherab.Common.Qx.
-Require Import Cherab.Model.C02_LineShape Cherab.Model.C02_Quadrature.
-Require Import Cherab.Proofs.C02_Gauss Cherab.Proofs.C02_Norm Cherab.Proofs.C02_Weights Cherab.Proofs.C02_Quadrature.
+Require Import Cherab.Model.C02_LineShape Cherab.Model.C02_Quadrature Cherab.Model.C02_Policy.
+From Coq Require Import Permutation.
+From Coq Require String.
+Require Import Cherab.Proofs.C02_Gauss Cherab.Proofs.C02_Norm Cherab.Proofs.C02_Weights Cherab.Proofs.C02_Quadrature Cherab.Proofs.C02_Sums Cherab.Proofs.C02_Policy.
 Open Scope Q_scope.
 
 (* 1. the bin loop of add_gaussian_line, with its running lower_integral, early exits and floor/ceil
@@ -222,6 +224,108 @@ Theorem C02_quadrature_cache_row :
 Proof. exact quadrature_rows. Qed.
 Open Scope Q_scope.
 Print Assumptions C02_quadrature_cache_row.
+
+(* ======================= deepening round ======================= *)
+
+(* 19. about the list the code returns: sum(samples) * delta after add_line = the same before + the integral of what the
+   components add; for one Gaussian line the spectrum's integral grows by exactly R (Phi(edge_end) - Phi(edge_start)) *)
+Theorem C02_samples_integral :
+  forall E sqrt2 I (g : grid) (cs : list comp) (smp : list Q), length smp = Z.to_nat (gbins g) ->
+  Qsum (add_comps E sqrt2 I g cs smp) * gdelta g == Qsum smp * gdelta g + integral (csbin E sqrt2 I g cs) g /\
+  (forall R lam sig, grid_ok g -> g_active g lam sig = true ->
+   Qsum (add_gaussian E sqrt2 R lam sig g smp) * gdelta g ==
+   Qsum smp * gdelta g +
+   R * (1 # 2) * (E (erfarg g lam (g_temp sqrt2 sig) (g_end g lam sig)) - E (erfarg g lam (g_temp sqrt2 sig) (g_start g lam sig)))).
+Proof. intros; split; [now apply samples_integral | intros; now apply gaussian_samples_integral]. Qed.
+Print Assumptions C02_samples_integral.
+
+(* 20. the visited range is ordered and inside the spectrum: 0 <= start <= end <= bins (both routines) *)
+Theorem C02_range_ordered :
+  forall (g : grid), grid_ok g ->
+  (forall lam sig, g_active g lam sig = true ->
+     (0 <= g_start g lam sig <= g_end g lam sig)%Z /\ (g_end g lam sig <= gbins g)%Z) /\
+  (forall lam w, 0 < w -> l_cl lam w <= gmax g -> gmin g <= l_cu lam w ->
+     (0 <= l_start g lam w <= l_end g lam w)%Z /\ (l_end g lam w <= gbins g)%Z).
+Proof. intros; split; intros; [now apply gauss_range_ordered | now apply lorentz_range_ordered]. Qed.
+Print Assumptions C02_range_ordered.
+
+(* 21. strengthens 8: window spanning the line, E odd, monotone, |E| <= 1: R (1 - eps) <= integral <= R for every eps with
+   1 - eps <= E(10/sqrt2).  The analytic gap is now this ONE number (erf(10/sqrt 2) = 1 - 1.5e-23; libm returns 1.0,
+   which the harness records on every run) *)
+Theorem C02_gauss_whole_radiance :
+  forall E sqrt2 R lam sig (g : grid) eps, grid_ok g -> monotone E -> (forall x, E (- x) == - E x) ->
+  (forall x, -1 <= E x <= 1) -> 0 < sqrt2 -> 0 <= R -> 0 < sig ->
+  1 - eps <= E (cutoff_sigma / sqrt2) ->
+  gmin g <= g_cl lam sig -> g_cu lam sig <= gmax g ->
+  R * (1 - eps) <= integral (gbin E sqrt2 R lam sig g) g <= R.
+Proof. exact gauss_whole_radiance. Qed.
+Print Assumptions C02_gauss_whole_radiance.
+
+(* 22. PARTIAL, strengthens 16: window spanning +-50 FWHM, integrator additive and equal to 1 on [lam - 50 w, lam + 50 w]:
+   the Stark integral is R (1 + the two pieces of the straddling bins beyond the cut-off), hence >= R for a non-negative
+   integrand.  Remaining gap: the value 1 of that one interval (the hypergeometric constant STARK_NORM_COEFFICIENT) and the
+   additivity of the code's Gauss-Legendre rule (false on coarse grids: known finding) *)
+Theorem C02_stark_whole_radiance_partial :
+  forall I R lam w (g : grid), grid_ok g -> additive (I lam w) ->
+  I lam w (l_cl lam w) (l_cu lam w) == 1 ->
+  0 < w -> gmin g <= l_cl lam w -> l_cu lam w <= gmax g ->
+  integral (lbin I R lam w g) g ==
+    R * (1 + I lam w (edge g (l_start g lam w)) (l_cl lam w) + I lam w (l_cu lam w) (edge g (l_end g lam w))) /\
+  ((forall a b, a <= b -> 0 <= I lam w a b) -> 0 <= R -> R <= integral (lbin I R lam w g) g).
+Proof. exact stark_whole_radiance. Qed.
+Print Assumptions C02_stark_whole_radiance_partial.
+
+(* 23. pi + sigma = unpolarised for the returned samples (not only for the per-bin specification), four models *)
+Theorem C02_samples_pi_plus_sigma :
+  forall E sqrt2 I K sqrtQ powQ lnQ expQ s2f (g : grid) (smp : list Q) w m ts vel b R dir (i : nat),
+  length smp = Z.to_nat (gbins g) ->
+  let D := fun cs => nth i (add_comps E sqrt2 I g cs smp) 0 - nth i smp 0 in
+  D (zeeman_triplet K sqrtQ PolNo w m ts vel b R dir) ==
+    D (zeeman_triplet K sqrtQ PolPi w m ts vel b R dir) + D (zeeman_triplet K sqrtQ PolSigma w m ts vel b R dir) /\
+  (forall al be ga, D (param_zeeman_triplet K sqrtQ powQ PolNo al be ga w m ts vel b R dir) ==
+    D (param_zeeman_triplet K sqrtQ powQ PolPi al be ga w m ts vel b R dir)
+    + D (param_zeeman_triplet K sqrtQ powQ PolSigma al be ga w m ts vel b R dir)) /\
+  (forall rp rsp rsm, D (zeeman_multiplet K sqrtQ PolNo rp rsp rsm w m ts vel b R dir) ==
+    D (zeeman_multiplet K sqrtQ PolPi rp rsp rsm w m ts vel b R dir)
+    + D (zeeman_multiplet K sqrtQ PolSigma rp rsp rsm w m ts vel b R dir)) /\
+  (forall cij aij bij ne te, D (stark_line K sqrtQ powQ lnQ expQ s2f PolNo cij aij bij w m ne te ts vel b R dir) ==
+    D (stark_line K sqrtQ powQ lnQ expQ s2f PolPi cij aij bij w m ne te ts vel b R dir)
+    + D (stark_line K sqrtQ powQ lnQ expQ s2f PolSigma cij aij bij w m ne te ts vel b R dir)).
+Proof.
+  intros; repeat split; intros; apply samples_pi_plus_sigma; try assumption; intros;
+    [apply zeeman_triplet_pi_sigma | apply param_zeeman_pi_sigma | apply zeeman_multiplet_pi_sigma | apply stark_pi_sigma].
+Qed.
+Print Assumptions C02_samples_pi_plus_sigma.
+
+(* 24. order and multiplicity (so far only in the search): components handed over in any order, or one component given as
+   two halves, add the same to every bin and give the same samples *)
+Theorem C02_component_order_irrelevant :
+  forall E sqrt2 I (g : grid) (cs cs' : list comp), Permutation cs cs' ->
+  (forall i, csbin E sqrt2 I g cs i == csbin E sqrt2 I g cs' i) /\
+  (forall smp i, length smp = Z.to_nat (gbins g) ->
+     nth i (add_comps E sqrt2 I g cs smp) 0 == nth i (add_comps E sqrt2 I g cs' smp) 0) /\
+  (forall R lam sig i, csbin E sqrt2 I g (GaussC R lam sig :: cs) i ==
+     csbin E sqrt2 I g (GaussC ((1 # 2) * R) lam sig :: GaussC ((1 # 2) * R) lam sig :: cs) i).
+Proof. intros; repeat split; intros; [now apply csbin_permutation | now apply samples_permutation | apply csbin_split]. Qed.
+Print Assumptions C02_component_order_irrelevant.
+
+(* 25. the polarisation setter keeps no history: after any sequence of calls (rejected ones included) ending with an
+   accepted value the state is that value, whatever came before; re-assigning the getter's value changes nothing *)
+Theorem C02_polarisation_setter_history :
+  forall (st st' : pol) (vs vs' : list String.string) (v : String.string) (p : pol), pol_of_string v = Some p ->
+  fst (pol_run st (vs ++ [v])) = p /\ fst (pol_run st (vs ++ [v])) = fst (pol_run st' (vs' ++ [v]))
+  /\ pol_set p (pol_get p) = (p, false).
+Proof. exact pol_history_independent. Qed.
+Print Assumptions C02_polarisation_setter_history.
+
+(* 26. arguments accepted by the constructors satisfy what the weight theorems assume *)
+Theorem C02_validation_sound :
+  (forall a b, param_zeeman_valid a b = true -> 0 < a /\ 0 <= b) /\
+  (forall c a b, stark_coeff_valid c a b = true -> 0 < c /\ 0 < a /\ 0 < b) /\
+  (forall w f, stark_function_valid w f = true -> 0 < w /\ 0 < f) /\
+  (forall rs, multiplet_valid rs = true -> Qsum rs == 1).
+Proof. exact validation_sound. Qed.
+Print Assumptions C02_validation_sound.
 
 (* non-vacuity: a grid, a line and weights satisfying the hypotheses used above *)
 Definition witness_grid : grid := {| gmin := 650; gmax := 660; gbins := 20; gdelta := 1 # 2 |}.
